@@ -850,12 +850,23 @@ def layer_mode_schedules(ck):
     Li = dict(services=[dict(id=1, name="svc1", req=dict(id=1, name="rq1", params=c06.named([c06.u8(0x2A), bad_enc], "a"), resp=False),
                              pos=[dict(id=2, name="pr1", params=c06.named([c06.u8(0x6A), bad_enc], "b"), resp=True)], neg=[])], gnrs=[])
     layers.append((Li, [(bytes([0x2A, 0x41]), None), (bytes([0x6A, 0x41]), None), (bytes([0x6A, 0x41]), bytes([0x2A, 0x41])), (bytes([0x2A]), None)]))
+    # corpus (recorded finding prefix-tree-mode-cached): beside a healthy service, a service whose CODED-CONST does not fit
+    # its bit length (511 in 8 bits)
+    misfit = cc.param(None, dict(k="coded", dct=cc.std(cc.BUINT, 8), v=511))
+    Lb = dict(services=[dict(id=1, name="svc1", req=dict(id=1, name="rq1", params=c06.named([c06.u8(0x10), u8v], "a"), resp=False), pos=[], neg=[]),
+                        dict(id=2, name="svc2", req=dict(id=2, name="rq2", params=c06.named([misfit, u8v], "b"), resp=False), pos=[], neg=[])],
+              gnrs=[], finding="prefix-tree-mode-cached")
+    layers.append((Lb, [(bytes([0x10, 5]), None)]))
     for _ in range(12 if quick else 120):
         layers.append((c06.gen_layer(rng), None))
     n = 0
     for L, msgs in layers:
         try:
-            layer = c06.load_layer(L)
+            ex.strict_mode = "finding" not in L   # (a description with such a fault only loads in non-strict mode)
+            try:
+                layer = c06.load_layer(L)
+            finally:
+                ex.strict_mode = True
         except Exception:  # noqa
             continue
         idmap = c06.ids_of(L)
@@ -910,6 +921,11 @@ def layer_mode_schedules(ck):
                     # a problem which is no decode error (the description itself is at fault) is reported in strict mode and
                     # tolerated in non-strict mode
                     bad = f"the problem reported in strict mode ({outs[0]}) is not downgraded in non-strict mode ({outs[1]})"
+                kf = ck.match_known({L["finding"]}) if bad and "finding" in L and what == "layer" and outs[2] != outs[0] else None
+                if kf:
+                    ck.known_finding(kf["id"], kf["what"])
+                    failed = True
+                    break
                 if bad:
                     ck.violation(f"{what}, message {bytes(m).hex()}" + (f" (request {bytes(rq).hex()})" if rq else "") + ": " + bad,
                                  {"layer": json.loads(json.dumps(L, default=repr)),
